@@ -52,7 +52,11 @@ from fortls.parsers.internal.intrinsics import (
     load_intrinsics,
     set_lowercase_intrinsics,
 )
-from fortls.parsers.internal.parser import FortranFile, get_line_context
+from fortls.parsers.internal.parser import (
+    FortranFile,
+    get_line_context,
+    splitlines,
+)
 from fortls.parsers.internal.scope import Scope
 from fortls.parsers.internal.use import Use
 from fortls.parsers.internal.utilities import (
@@ -1377,6 +1381,26 @@ class LangServer:
 
     def serve_onOpen(self, request: dict):
         self.serve_onSave(request, did_open=True)
+        # From now on the document is what the client says it is: the text sent
+        # with didOpen can differ from the file (unsaved changes restored by
+        # the editor)
+        text_doc: dict = request["params"]["textDocument"]
+        text = text_doc.get("text")
+        file_obj = self.workspace.get(path_from_uri(text_doc["uri"]))
+        if not isinstance(text, str) or file_obj is None:
+            return
+        if splitlines(text.replace("\t", " ")) == file_obj.contents_split:
+            return
+        self.serve_onChange(
+            {
+                "params": {
+                    "textDocument": {"uri": text_doc["uri"]},
+                    "contentChanges": [{"text": text}],
+                }
+            }
+        )
+        if not self.disable_diagnostics:
+            self.send_diagnostics(text_doc["uri"])
 
     def serve_onClose(self, request: dict):
         self.serve_onSave(request, did_close=True)
